@@ -468,6 +468,28 @@ pub fn h_cb_fail(run: &Run, out: &mut Vec<Violation>) {
                 }
                 _ => false,
             };
+            // a validate function returning the container's own error type builds its error
+            // through E::error; the container must then hand that error to the error type at
+            // its own location (`merge(None, e, location)`)
+            if ok {
+                if let (Some(Event::Report { result, .. }), Event::Call { loc: Some(cloc), .. }) = (run.events.get(i + 1), e) {
+                    let handed = match run.events.get(i + 2) {
+                        Some(Event::Merge { other, loc, .. }) => other == result && loc == cloc,
+                        _ => false,
+                    };
+                    if !handed {
+                        out.push(v(
+                            "H-calls",
+                            format!(
+                                "the error returned by `{}` was not handed to the error type at the container's location next (next event: {})",
+                                e.render(),
+                                run.events.get(i + 2).map(|x| x.render()).unwrap_or_else(|| "none".into())
+                            ),
+                        ));
+                        return;
+                    }
+                }
+            }
             if !ok {
                 out.push(v(
                     "H-calls",
